@@ -30,6 +30,10 @@ func VPH_C08_headers() {
 			// forged X-Forwarded-Port and X-Forwarded-Host come together or not at all
 			vp.Assume(hasPort == hasHost)
 		}
+		if vp.Param("RICH") == 3 {
+			// forged X-Forwarded-Proto and Forwarded in every combination, no forged port/host
+			vp.Assume(!hasPort && !hasHost)
+		}
 	} else {
 		vp.Assume(host != "")
 		if cfgTLSHeader {
